@@ -2,6 +2,6 @@
    Only ExtrOcamlBasic (bool, option, unit, list, prod, sumbool ... mapped to OCaml's); nat, N, Z, byte
    stay the extracted inductives. No Extract Constant / Extract Inductive of our own. *)
 From Coq Require Extraction ExtrOcamlBasic.
-From IGP Require Import Base.Str Base.Outcome Model.Tree Model.DoV Model.Odo Model.Leaves Model.Flat Model.Visual Model.VisJson Model.Link Model.Tabular Model.Priv Spec.Json Spec.VisView Spec.TabSpec Proofs.JsonLemmas Proofs.VisualJson Gen.Wiring.
+From IGP Require Import Base.Str Base.Outcome Model.Tree Model.DoV Model.Odo Model.Leaves Model.Flat Model.Visual Model.VisJson Model.Link Model.Tabular Model.Priv Spec.Json Spec.VisView Spec.TabSpec Spec.Shared Proofs.JsonLemmas Proofs.VisualJson Gen.Wiring.
 Extraction Language OCaml.
-Extraction "model.ml" endpoint_id spec_table spec_rows spec_links spec_cell_text stmt_of_node tab_root tab_T find_linkage path_ops collapse_ops add_ref expand_refs clean_input adjust lv leafseqs to_json to_json_node vwf_stmt vis_print vis_print_node vis_fuel vis_T node_size odometer leaf_arrays alternatives stmt_leaf_arrays node_cx stmt_cx dov_node dov_total dov_wf_stmt dov_W all_fields field_idx itoa_Z itoa_nat op_name deep_node deep_stmt process_links priv_link_table.
+Extraction "model.ml" endpoint_id spec_table spec_rows spec_links spec_cell_text stmt_of_node tab_root tab_T find_linkage path_ops collapse_ops add_ref expand_refs clean_input adjust lv leafseqs to_json to_json_node vwf_stmt vis_print vis_print_node vis_fuel vis_T spec_vis eff_shared node_size odometer leaf_arrays alternatives stmt_leaf_arrays node_cx stmt_cx dov_node dov_total dov_wf_stmt dov_W all_fields field_idx itoa_Z itoa_nat op_name deep_node deep_stmt process_links priv_link_table.
